@@ -40,7 +40,7 @@ def generate(rng, tier, rep):
                            for _ in range(rng.choice([1, 1, 2]))]
         if rng.random() < (0.45 if c.get('broken') else 0.04):
             # filters that select nothing: whatever could not be imported still decides the verdict — in every mode
-            c['select_none'] = rng.choice(['-t', '-t', '--layer'])
+            c['select_none'] = rng.choice(['-t', '-t', '--layer', '--only-level', '--only-level'])
             c['options'] = [o for o in c['options'] if not o.startswith('-j')]
             if rng.random() < 0.6 and '-x' not in c['options']:
                 c['options'].append('-j%d' % rng.choice([2, 3]))
